@@ -248,6 +248,12 @@ class SOpaque(SV):     # a value we do not model (messages, ...)
 
 
 @dataclass
+class STuple(SV):      # a small heterogeneous tuple of known length (e.g. `return dmax, order`)
+    items: Any
+    ty: Any = "tuple"
+
+
+@dataclass
 class SOpaqueObj(SV):  # an object whose class is not modelled (MultiTensor, callables, tensors): every
     name: str          # operation on it yields a fresh opaque value (or the type its contract declares)
     ty: Any = "opaque"
